@@ -12,6 +12,7 @@ MCNext ==
   \/ DoLoadConfig /\ Step("LoadConfig") /\ UNCHANGED nTicks
   \/ DoStart /\ Step("Start") /\ UNCHANGED nTicks
   \/ DoUserData /\ ~userData /\ Step("UserData") /\ UNCHANGED nTicks
+  \/ DoAge /\ Step("Age") /\ UNCHANGED nTicks
   \/ nTicks < MaxTicks /\ DoTick /\ Step("Tick") /\ nTicks' = nTicks + 1
   \/ DoStop /\ Step("Stop") /\ UNCHANGED nTicks
 MCSpec == MCInit /\ [][MCNext]_mcvars
